@@ -162,12 +162,12 @@ SPEC = r"""
     ensures
         // no current directory / no readable UTF-8 file at <cwd>/<path>: that failure, nothing evaluated
         (plan(*cur_rel_script_path) is Fail && !(plan(*cur_rel_script_path)->Fail_0 is ParseFailed))
-            ==> r == Err::<(), Error>(plan(*cur_rel_script_path)->Fail_0) && log@.len() == 0, // [C03_C17:an_unreadable_script_is_a_reported_failure_and_nothing_runs]
+            ==> r == Err::<(), Error>(plan(*cur_rel_script_path)->Fail_0) && log@.len() == 0, // [C03_C17_C19:the_file_read_is_the_one_at_the_working_directory_joined_with_the_path_as_given_and_an_unreadable_script_is_a_reported_failure_and_nothing_runs]
         // the file was read: what is lexed and parsed is its text, all of it, as it is
         (plan(*cur_rel_script_path) is Fail && plan(*cur_rel_script_path)->Fail_0 is ParseFailed)
-            ==> r == Err::<(), Error>(plan(*cur_rel_script_path)->Fail_0) && log@.len() == 0, // [C03_C09_C15_C17_C18:the_lexer_reads_the_text_of_the_file_unchanged_and_a_file_that_does_not_parse_is_rejected_before_anything_runs]
+            ==> r == Err::<(), Error>(plan(*cur_rel_script_path)->Fail_0) && log@.len() == 0, // [C03_C09_C15_C17_C18_C19:the_lexer_reads_the_text_of_the_file_unchanged_and_a_file_that_does_not_parse_is_rejected_before_anything_runs]
         plan(*cur_rel_script_path) is Eval
-            ==> log@.len() == 1 && log@[0].prog == plan(*cur_rel_script_path)->Eval_0, // [C03_C09_C15_C17_C18:what_is_evaluated_is_the_parse_of_the_text_of_the_file_unchanged_and_it_is_evaluated_once]
+            ==> log@.len() == 1 && log@[0].prog == plan(*cur_rel_script_path)->Eval_0, // [C03_C09_C15_C17_C18_C19:what_is_evaluated_is_the_parse_of_the_text_of_the_file_unchanged_and_it_is_evaluated_once]
         log@.len() == 1 ==> r == eval_outcome(log@[0].result, *cur_rel_script_path), // [C17:the_outcome_of_the_run_is_the_outcome_of_the_evaluation_and_a_failure_carries_the_script_path_as_given]
 """
 
